@@ -173,7 +173,9 @@ def rule_raw_read(ctx, facts):
             if (flow.declared(blk.term) or "") == "std::io::Read::read":
                 sites.append((b, blk))
     r.sites = len(sites)
-    r.need("raw read sites in decoding code", len(sites) >= 4)
+    # counted by hand: 3 in the one-shot code (two digesting adapters, the dead path of read_partial_input_buf's caller) and 2 more in the
+    # streaming decoder, which exists only with the "stream" feature
+    r.need("raw read sites in decoding code", len(sites) >= (5 if "stream" in (ctx.default_cfg or "") else 3))
     pending = []
     for b, blk in sites:
         fn = short(b.name)
